@@ -15,7 +15,7 @@ CONSTANTS GenWhat,     \* which families of cases to print
 Case(k, pop, pol, allow, sc, ops) ==
   [kind |-> k, imm |-> FALSE, pop |-> pop, pol |-> pol, allow |-> allow,
    scope |-> [unl |-> sc.unl, triples |-> sc.set], ops |-> ops, failafter |-> -1, failwith |-> "",
-   tree |-> <<>>, nodes |-> <<>>]
+   tree |-> <<>>, nodes |-> <<>>, faults |-> <<>>, scripted |-> FALSE, script |-> <<>>]
 \* the same with a backend whose repository listing fails after k items, handing the name
 \* `with` over together with the error
 CaseF(k, pop, pol, allow, sc, ops, after, with) ==
@@ -91,11 +91,41 @@ TreeCases ==
              !.nodes = Times(d + 1, Len(ProbeOps)) \o Times(d + 2, Len(ProbeOps))
                        \o (IF d > 0 THEN Times(d, Len(ProbeOps)) ELSE <<>>) \o Times(d + 1, Len(ProbeOps))] :
      d \in 0..3, ck \in {"checker", "select"}, sk \in {"checker", "select"}}
+\* A backend that refuses one method with one standard error.  Sub: the backend also has
+\* repositories OUTSIDE the prefix named like the view-relative names ("a", "b" next to foo/a, foo/b),
+\* all holding the blob; every refusable method goes through the view on "a", mounts both ways.
+FaultProbe(n, m) == ReadsOn(n) \o PushesOn(n) \o <<Mount(n, m), Mount(m, n)>> \o DeletesOn(n)
+SubFaultCases ==
+  {[Case("sub", {"foo/a", "foo/b", "fooey", "a", "b"}, <<>>, {}, RichScope, FaultProbe("a", "b")) EXCEPT !.faults = (m :> code)] :
+     m \in FaultOps, code \in FaultCodes}
+CheckerFaultCases ==
+  {[Case("checker", {"r1", "r2", "r3"}, TableOf(f), {}, NoScope, FaultProbe("r1", "r2")) EXCEPT !.faults = (m :> code)] :
+     m \in FaultOps, code \in (IF GenFull THEN FaultCodes ELSE {"UNSUPPORTED"}),
+     f \in {<<>>, (<<"r1", "Write">> :> CHOOSE e \in ErrIds : TRUE), (<<"r1", "Read">> :> CHOOSE e \in ErrIds : TRUE)}}
+\* Names that are not repository names, as method arguments: allowed, refused for everything,
+\* refused for Read only, under a table and under an allow set.
+GenIll == {"A", "a//a", "a/", "", "..", "A/a"}
+RowTable(n, row) == [x \in Repos \cup {Star, n} |-> IF x = n THEN row ELSE [k \in Kinds |-> PolOk]]
+IllRows(e) == {[k \in Kinds |-> PolOk], [k \in Kinds |-> e], [k \in Kinds |-> IF k = "Read" THEN e ELSE PolOk]}
+IllCases ==
+  {Case("checker", {"r1", "r2"}, RowTable(n, row), {}, NoScope, FaultProbe(n, "r1")) : n \in GenIll, row \in IllRows(CHOOSE e \in ErrIds : TRUE)}
+  \cup UNION {{Case("select", {"r1", "r2"}, SelPol(a, Repos), a, NoScope, FaultProbe(n, "r1")) : a \in {{"r1", n}, {"r1"}, {n, Star}}} : n \in GenIll}
+\* Backend listings as they might come (names repeated, out of order, ill-formed), under every
+\* Read-assignment of the names in them, whole and cut short by an error.
+ScriptCase(k, pol, allow, sq, after) ==
+  \* (what a scripted backend holds does not matter: nothing is put there)
+  [CaseF(k, {}, pol, allow, NoScope, <<[op |-> "ListRepos", startpos |-> 0]>>, after, "") EXCEPT !.scripted = TRUE, !.script = sq]
+ScriptCases ==
+  UNION {{ScriptCase("checker", TableOf(g), {}, sq, after) : g \in [ScriptNames(sq) \X {"Read"} -> Vals], after \in {-1, 2}} : sq \in Scripts}
+  \cup UNION {{ScriptCase("select", SelPol(a, Repos), a, sq, after) : a \in SUBSET ScriptNames(sq), after \in {-1, 2}} : sq \in Scripts}
 Cases == (IF "checkerops" \in GenWhat THEN CheckerOpsCases ELSE {})
     \cup (IF "checkerlist" \in GenWhat THEN CheckerListCases ELSE {})
     \cup (IF "selectlist" \in GenWhat THEN SelectListCases ELSE {})
     \cup (IF "selectops" \in GenWhat THEN SelectOpsCases ELSE {})
     \cup (IF "trees" \in GenWhat THEN TreeCases ELSE {})
+    \cup (IF "ill" \in GenWhat THEN IllCases \cup ScriptCases ELSE {})
+    \cup (IF "subfaults" \in GenWhat THEN SubFaultCases ELSE {})
+    \cup (IF "checkerfaults" \in GenWhat THEN CheckerFaultCases ELSE {})
     \cup (IF "listfail" \in GenWhat THEN CheckerFailCases \cup SelectFailCases ELSE {})
     \cup (IF "subnames" \in GenWhat THEN SubNameCases ELSE {})
     \cup (IF "sublist" \in GenWhat THEN SubListCases \cup SubFailCases ELSE {})
